@@ -37,7 +37,7 @@ def correspondence(tier, rng):
 def oracle(tier, rng, deep=False):
     failures, samples = [], []
     ev = nontriv = 0
-    nrep = 4 if tier == "quick" and not deep else 25
+    nrep = 4 if tier == "quick" and not deep else (12 if tier == "quick" else 25)   # quick + broken obligation: 3x the quick search
     for _ in range(nrep):
         for name, make, ygen, params in datafit_instances(rng):
             n, p = rng.randint(4, 8), rng.randint(1, 4)
